@@ -44,6 +44,7 @@ pub struct RemoteTracker {
     identity: Uuid,
     registry: LaneRegistry,
     remotes: HashMap<Uuid, Uplinks>,
+    generation: u64,
 }
 
 impl RemoteTracker {
@@ -56,6 +57,7 @@ impl RemoteTracker {
             identity,
             registry: Default::default(),
             remotes: Default::default(),
+            generation: 0,
         }
     }
 
@@ -92,11 +94,14 @@ impl RemoteTracker {
             identity,
             node,
             remotes,
+            generation,
             ..
         } = self;
+        *generation += 1;
         if let Some(existing) = remotes.insert(
             remote_id,
-            Uplinks::new(node.clone(), *identity, remote_id, writer, completion),
+            Uplinks::new(node.clone(), *identity, remote_id, writer, completion)
+                .with_generation(*generation),
         ) {
             existing.complete(DisconnectionReason::DuplicateRegistration(remote_id));
         }
@@ -148,9 +153,19 @@ impl RemoteTracker {
             registry, remotes, ..
         } = self;
         let id = writer.remote_id();
+        // A sender from a registration that has since been replaced is dropped.
         remotes
             .get_mut(&id)
+            .filter(|uplinks| uplinks.generation() == writer.generation())
             .and_then(|uplinks| uplinks.replace_and_pop(writer, buffer, registry))
+    }
+
+    /// Determine whether a sender belongs to the current registration of its remote.
+    pub fn is_current(&self, writer: &RemoteSender) -> bool {
+        self.remotes
+            .get(&writer.remote_id())
+            .map(|uplinks| uplinks.generation() == writer.generation())
+            .unwrap_or(false)
     }
 
     pub fn is_empty(&self) -> bool {
